@@ -40,10 +40,9 @@ class PRNG:
         return self.choice(list(choices) + ([16, 37, 64, 200] if self.big else []))
 
     def nsteps(self, choices):
-        # now and then a long horizon also in the quick tier (rounding accumulates, caches and grids of hundreds of points)
-        if self.chance(0.03):
-            return self.choice([60, 150])
-        return self.choice(list(choices) + ([15, 25, 40, 80, 150, 300] if self.big else []))
+        # (horizons of hundreds of steps are generated where the profile is built for them - C14 - not globally: unbounded
+        # hedging models take P&L magnitudes to 1e10 and beyond there, outside every numerical assumption of the other checks)
+        return self.choice(list(choices) + ([15, 25, 40, 80] if self.big else []))
 
     def u64(self):
         self.draws += 1
